@@ -9,7 +9,7 @@
    harness/p_c02.py).  The full statement C02_full is kept visible and is not proved. *)
 From Coq Require Import List NArith Bool.
 From SV Require Import lib.Bytes model.Graph model.GraphDump model.GraphInv model.Commute
-                       proofs.CommuteProofs.
+                       proofs.CommuteProofs proofs.CommuteDefine.
 Import ListNotations.
 Open Scope N_scope.
 
@@ -63,6 +63,36 @@ Proof. exact static_cong. Qed.
 
 Theorem C02_inv_implies_Pst : forall s, inv_b s = true -> Pst s.
 Proof. exact inv_b_Pst. Qed.
+
+(* (static, define) in the FRESH fragment.  fresh_define L inp out vol s: the label L is new, the
+   three path lists are duplicate free and pairwise disjoint, no (re)created row is BUILT (a BUILT
+   row would start a propagation through its consumers), no node has a file as creator.  Both
+   issuers are attached; deps_closed (absent nodes have no edges) follows from inv_b
+   (C02_inv_implies_deps_closed).  If both requests are accepted in both orders the graphs agree
+   on every look-up.  Covers the provenance case "one step supplies p as an input, another step
+   declares p static": p ends up UNCONFIRMED, attached, owned by the declarer, with the edge
+   p -> L, in either order. *)
+Theorem C02_declarations_commute_static_define :
+  forall (s sa sb s12 s21 : st) (c1 : key) (ps : list str)
+         (c2 : key) (L : str) (inp env out vol : list str) (nd : need),
+    not_file c1 -> not_file c2 -> NoDup ps -> attached c1 s = true -> attached c2 s = true ->
+    fresh_define L inp out vol s -> deps_closed s ->
+    step_op (OpDeclareStatic c1 ps) s = Ok sa ->
+    step_op (OpDefineStep c2 L inp env out vol nd) sa = Ok s12 ->
+    step_op (OpDefineStep c2 L inp env out vol nd) s = Ok sb ->
+    step_op (OpDeclareStatic c1 ps) sb = Ok s21 ->
+    st_equiv s12 s21.
+Proof. exact static_define_commute. Qed.
+
+(* the look-up characterisation of define_step for a new label that the pair theorems rest on *)
+Theorem C02_define_step_new_characterised :
+  forall c L inp env out vol nd s s',
+    define_step_new c L inp env out vol nd s = Ok s' -> fresh_define L inp out vol s ->
+    define_spec c L inp env out vol nd s s'.
+Proof. exact define_step_new_spec. Qed.
+
+Theorem C02_inv_implies_deps_closed : forall s, inv_b s = true -> deps_closed s.
+Proof. exact inv_b_deps_closed. Qed.
 
 (* ---- 1'. where the faithful model does not commute (each witness is a reachable state with
         inv_b = true in which both issuers are RUNNING) ------------------------------------- *)
@@ -215,3 +245,13 @@ Proof.
   - apply (sw_swap other_creator [] _ _ [_]). cbn. discriminate.
   - vm_compute. reflexivity.
 Qed.
+
+(* non-vacuity of C02_declarations_commute_static_define: b declares x static while a defines a
+   step with input x and output y; accepted in both orders, equal graphs *)
+Example C02_static_define_example :
+  let s := run_ops ex_boot (init_st 3) in
+  let r1 := OpDeclareStatic (KStep, [98]) [[120]] in
+  let r2 := OpDefineStep (KStep, [97]) [99] [[120]] [] [[121]] [] NDefault in
+  find_node (KStep, [99]) s = None /\ recreated s [120] = true /\
+  both_orders r1 r2 s = VCommute.
+Proof. vm_compute. repeat split; reflexivity. Qed.
